@@ -111,6 +111,33 @@ def generate(rng, prop, tier, index):
         pkgs[i]['seps'] = seps
     mitems, mseps = _gen_body(rng, ids, [(j, ugl[j]) for j in edges[-1]],
                               True, rng.choice([[], ['end'], ['start']]))
+    # requires inside game-loop functions: to an extra package that nothing
+    # else requires (its file may even be missing), or to an existing one
+    for i in range(npk):
+        for it in pkgs[i]['items']:
+            if it['t'] == 'gl' and rng.random() < 0.25:
+                if rng.random() < 0.6:
+                    pkgs.append({'name': 'kit%d' % len(pkgs),
+                                 'dir': pkgs[i]['dir'],
+                                 'final_newline': True,
+                                 'items': [{'t': 'm', 'id': ids.next()}],
+                                 'seps': ['\n'],
+                                 'hidden_missing': rng.random() < 0.4})
+                    it['inner_req'] = len(pkgs) - 1
+                else:
+                    it['inner_req'] = rng.randrange(npk)
+                it['inner_ugl'] = ugl.get(it['inner_req'], False)
+    if rng.random() < 0.1:
+        k = len(pkgs)
+        pkgs.append({'name': 'v%d/mod' % k, 'dir': '', 'vendor': True,
+                     'final_newline': True,
+                     'items': [{'t': 'm', 'id': ids.next()}], 'seps': ['\n']})
+        holder = rng.choice([-1] + list(range(npk))) if npk else -1
+        target = mitems if holder == -1 else pkgs[holder]['items']
+        tseps = mseps if holder == -1 else pkgs[holder]['seps']
+        target.insert(0, {'t': 'req', 'pkg': k, 'ugl': False,
+                          'id': ids.next(), 'form': 'stmt'})
+        tseps.insert(0, '\n')
     lp_how = rng.choice(['default', 'default', 'arg', 'env', 'arg-abs'])
     sc = {'engine': NAME, 'pkgs': pkgs,
           'main': {'items': mitems, 'seps': mseps,
@@ -141,6 +168,8 @@ def _dir_of(sc, i):
 def _file_of(sc, i):
     """Store-relative path of package i's file."""
     p = sc['pkgs'][i]
+    if p.get('vendor'):
+        return 'proj/vendor/%s.lua' % p['name']
     if p.get('selfdir'):
         return 'proj/%s/%s.lua' % (p['name'], p['name'])
     return _dir_of(sc, i) + p['name'] + '.lua'
@@ -149,6 +178,8 @@ def _file_of(sc, i):
 def _req_dir_of(sc, i):
     """The directory in which package i's own require() calls are
     resolved (the directory of its file)."""
+    if i != -1 and sc['pkgs'][i].get('vendor'):
+        return 'proj/vendor/%s/' % sc['pkgs'][i]['name'].split('/')[0]
     if i != -1 and sc['pkgs'][i].get('selfdir'):
         return 'proj/%s/' % sc['pkgs'][i]['name']
     return _dir_of(sc, i)
@@ -158,8 +189,8 @@ def _req_string(sc, frm, to):
     """The require string used in file `frm` for package `to`: the path of
     the package file relative to the requiring file's directory, without
     extension (resolved by the default `?;?.lua` or the custom path)."""
-    if sc['pkgs'][to].get('selfdir'):
-        return None                  # by bare name through `<root>/?/?.lua`
+    if sc['pkgs'][to].get('selfdir') or sc['pkgs'][to].get('vendor'):
+        return None                  # by bare name through an absolute entry
     rel = os.path.relpath(_dir_of(sc, to) + sc['pkgs'][to]['name'],
                           _req_dir_of(sc, frm))
     if rel.startswith('..'):
@@ -208,6 +239,12 @@ def _item_text(sc, frm, it, lua_path_mode):
         return 'return %d' % i
     if t == 'gl':
         inner = ' '.join('mk_%d=%d' % (x, x) for x in it['inner'])
+        if it.get('inner_req') is not None:
+            # a require() inside the game-loop function (a library's self
+            # test pulling in a test kit, say)
+            inner += ' local tk_%d=require(%s%s)' % (
+                i, lua_quote(req_name(sc, frm, it['inner_req']), i),
+                ',{use_game_loop=true}' if it.get('inner_ugl') else '')
         if it['oneline']:
             return 'function %s() %s end' % (it['name'], inner)
         return 'function %s()\n %s\nend' % (it['name'], inner)
@@ -301,7 +338,8 @@ def req_name(sc, frm, to):
     if s is None:
         # reachable only through the load path rooted at proj/: the scenario
         # then uses a load path with an absolute or main-relative entry
-        s = '@' + ('' if sc['pkgs'][to].get('selfdir')
+        s = '@' + ('' if (sc['pkgs'][to].get('selfdir') or
+                          sc['pkgs'][to].get('vendor'))
                    else sc['pkgs'][to]['dir']) + sc['pkgs'][to]['name']
     return s
 
@@ -377,6 +415,12 @@ def _hname(m):
 
 
 def _needs_root_path(sc):
+    if any(p.get('vendor') or p.get('selfdir') for p in sc['pkgs']):
+        return True
+    return _needs_root_path0(sc)
+
+
+def _needs_root_path0(sc):
     for frm in [-1] + list(range(len(sc['pkgs']))):
         f = sc['main'] if frm == -1 else sc['pkgs'][frm]
         for it in f['items']:
@@ -398,6 +442,8 @@ def _lua_path_value(sc, w):
         val = '?.lua;?;%s?.lua' % absroot
     if any(p.get('selfdir') for p in sc['pkgs']):
         val += ';%s?/?.lua' % absroot
+    if any(p.get('vendor') for p in sc['pkgs']):
+        val += ';%svendor/?.lua' % absroot
     return ('env' if how == 'env' else 'arg'), val
 
 
@@ -432,11 +478,16 @@ def model_traverse(sc, w, lp_value):
                 return os.path.normpath(cand)
         return None
 
-    def visit(frm):
+    def visit(frm, stripped=False):
         f = sc['main'] if frm == -1 else sc['pkgs'][frm]
         for it in f['items']:
             if it['t'] == 'bad':
                 return ('malformed', it['text'])
+            if it['t'] == 'gl' and it.get('inner_req') is not None:
+                if stripped:
+                    continue        # stripped together with its function
+                it = {'t': 'req', 'pkg': it['inner_req'],
+                      'ugl': bool(it.get('inner_ugl'))}
             if it['t'] != 'req':
                 continue
             name = req_name(sc, frm, it['pkg']).lstrip('@')
@@ -454,11 +505,11 @@ def model_traverse(sc, w, lp_value):
                 return ('unknown-file', name)
             seen[name] = idx
             table.append((name, idx, not it['ugl']))
-            r = visit(idx)
+            r = visit(idx, stripped=not it['ugl'])
             if r is not None:
                 return r
         return None
-    err = visit(-1)
+    err = visit(-1, stripped=False)
     return table, err
 
 
@@ -479,7 +530,19 @@ def execute(sc):
         for i, p in enumerate(sc2['pkgs']):
             if fk == 'ENOENT' and fault['pkg'] == i:
                 continue
+            if p.get('hidden_missing'):
+                continue       # only named inside a game-loop function
             w.put(_file_of(sc2, i), _file_bytes(sc2, i))
+        for p in sc2['pkgs']:
+            if p.get('vendor'):
+                # an extension-less file named like the package's directory,
+                # next to every file that may require it
+                first = p['name'].split('/')[0]
+                for d in set(_req_dir_of(sc2, j) for j in
+                             [-1] + list(range(len(sc2['pkgs'])))):
+                    if not d.startswith('proj/vendor/') and \
+                            not os.path.lexists(w.p(d + first)):
+                        w.put(d + first, b'vfile=1\n')
         main_text = _fix_at(render(sc2, -1))
         w.put('proj/main.lua', main_text.encode())
         out_rel = 'out/out.p8' + ('.png' if sc['out_fmt'] == 'png' else '')
@@ -512,6 +575,8 @@ def execute(sc):
             for i, p in enumerate(sc2['pkgs']):
                 if fk == 'ENOENT' and fault['pkg'] == i:
                     continue
+                if p.get('hidden_missing'):
+                    continue
                 w.put(_file_of(sc2, i), ('old_%d=1\n' % i).encode() +
                       _file_bytes(sc2, i))
             w.put('proj/main.lua', b'old_main=1\n' + main_text.encode())
@@ -523,6 +588,8 @@ def execute(sc):
                       rrc == 0 else 'earlier-build-failed')
             for i, p in enumerate(sc2['pkgs']):
                 if fk == 'ENOENT' and fault['pkg'] == i:
+                    continue
+                if p.get('hidden_missing'):
                     continue
                 w.put(_file_of(sc2, i), _file_bytes(sc2, i))
             w.put('proj/main.lua', main_text.encode())
@@ -815,7 +882,9 @@ def _edges(sc):
     e = {}
     for frm in [-1] + list(range(len(sc['pkgs']))):
         f = sc['main'] if frm == -1 else sc['pkgs'][frm]
-        e[frm] = [it['pkg'] for it in f['items'] if it['t'] == 'req']
+        e[frm] = [it['pkg'] for it in f['items'] if it['t'] == 'req'] + [
+            it['inner_req'] for it in f['items']
+            if it['t'] == 'gl' and it.get('inner_req') is not None]
     return e
 
 
@@ -946,6 +1015,12 @@ def _drop_pkg(sc, i):
         items = []
         seps = []
         for k, it in enumerate(f['items']):
+            if it['t'] == 'gl' and it.get('inner_req') is not None:
+                if it['inner_req'] == i:
+                    it = {kk: v for kk, v in it.items()
+                          if kk not in ('inner_req', 'inner_ugl')}
+                elif it['inner_req'] > i:
+                    it = dict(it, inner_req=it['inner_req'] - 1)
             if it['t'] == 'req':
                 if it['pkg'] == i:
                     continue
